@@ -139,6 +139,27 @@ def bounded_metamorphic(seed, n):
                 if q[0] == "exc" or q[1] != (True, True):
                     acc.fail(klass, "two representations of the same %s compare / hash %r in orientation %r" % (o[0], q[1], R), dict(a=B.ser(o), b=B.ser(o2), R=B.ser(R), t=B.ser((1, -2, 3)), k="1", label="representations"))
                     break
+    # crossing lines whose directions have proportional projections onto a coordinate plane, with a ratio that is not a short binary fraction:
+    # the elimination then meets a rounding residue where an exact zero belongs, in some of the 48 orientations only
+    Fq = Fraction
+    for u, v in ((("7/4", "9/4", "-2"), ("21/4", "27/4", "-3")), (("11/4", "15/4", "1"), ("-11/2", "-15/2", "3")), (("3", "7", "1/2"), ("9/2", "21/2", "-2")), (("5/4", "-7/4", "3"), ("15/4", "-21/4", "1"))):
+        u, v = tuple(Fq(c) for c in u), tuple(Fq(c) for c in v)
+        X = (Fq(1), Fq(1), Fq(1))
+        for kind in ("Line", "Segment"):
+            if kind == "Line":
+                a0, b0 = ("Line", O.sub(X, u), u), ("Line", O.add(X, O.scale(2, v)), v)
+            else:
+                a0, b0 = ("Segment", O.sub(X, u), O.add(X, u)), ("Segment", O.sub(X, O.scale(Fq(1, 2), v)), O.add(X, v))
+            for R in K.SYMMETRIES:
+                for kk in (Fq(1), Fq(1, 2)):
+                    a2, b2 = K.transform(a0, R, (0, 0, 0), kk), K.transform(b0, R, (0, 0, 0), kk)
+                    klass = "%s,%s vertical-plane crossing" % (kind, kind)
+                    acc.case(klass)
+                    exp = O.intersect(a2, b2)
+                    r = B._call(g.intersection, O.to_lib(a2, "float"), O.to_lib(b2, "float"))
+                    if r[0] == "exc" or not O.matches(r[1], exp, 1e-7)[0]:
+                        acc.fail(klass, "crossing %ss with directions proportional in a coordinate plane: intersection is %r in orientation %r, expected the crossing point" % (kind, r[1], R),
+                                 dict(a=B.ser(a0), b=B.ser(b0), R=B.ser(R), t=B.ser((0, 0, 0)), k=str(kk), label="vertical-plane crossing"))
     count = 0
     while count < n:
         for a, b, label in pool:
